@@ -276,15 +276,17 @@ unsafe impl<P: Pad> Trace for Node<P> {
         let mut reported = 0usize;
         {
             // the collector's own code (CcBox::trace) may panic under this callback: close the callback in the log then
-            struct Unwound(u32);
+            struct Unwound(u32, bool);
             impl Drop for Unwound {
                 fn drop(&mut self) {
-                    if std::thread::panicking() {
+                    // (a collection can run while the thread is already unwinding from an earlier panic: only a panic that
+                    // started under this callback counts)
+                    if std::thread::panicking() && !self.1 {
                         emit(json!({"e": "cbx", "cb": "trace", "o": self.0, "panic": true, "crate": true}));
                     }
                 }
             }
-            let _unwound = Unwound(o);
+            let _unwound = Unwound(o, std::thread::panicking());
             let slots = self.slots.borrow();
             for s in slots.iter() {
                 if let Some(cc) = &s.inner {
